@@ -33,7 +33,7 @@ LITERALS = [L(n) for n in ("literal_str", "literal_int", "literal_bytes", "liter
 
 def bounds(tier):
     return dict(tier=tier, members=[space.show(m) for m in _members(tier)], arities=[2, 3], pool=len(foreign.POOL),
-                spellings=["Union", "nested Union", "Optional[Union]", "PEP 604", "TypeVar constraints", "scalar members behind NewType / Annotated chains up to three deep"],
+                spellings=["Union", "nested Union", "Optional[Union]", "PEP 604", "TypeVar constraints", "scalar members behind NewType / Annotated chains up to three deep", "recursive PEP 695 aliases (3 member orders x codec / 4 field forms, serialization side)"],
                 entry_points=["codec", "mixin"])
 
 
@@ -83,6 +83,10 @@ def units(tier):
     for a, b in itertools.permutations(dictish, 2):
         out.append((("union", a, b), tier, "nt_as_dict"))
         out.append((("list", ("opt", ("union", a, b))), tier, "nt_as_dict"))
+    # recursive unions (PEP 695 aliases that mention themselves): serializing picks the member matching the value at EVERY depth
+    for order in RECURSIVE_ORDERS:
+        for where in ("codec", "field", "optional_field", "defaulted_none_field", "list_field"):
+            out.append((("recalias", order, where), tier))
     for lit in LITERALS:
         out.append((lit, tier))
         out.append((("list", lit), tier))
@@ -128,7 +132,54 @@ def _duck_pack(m, v, ctx, o):
     return _NO
 
 
+RECURSIVE_ORDERS = ("int | str | float | bool | None | list[J] | dict[str, J]", "None | dict[str, J] | list[J] | bool | float | str | int",
+                    "list[J] | None | int | dict[str, J] | str")
+RECURSIVE_VALUES = [None, 1, "s", [], {}, [None], {"k": None}, [1, None, {"a": None, "b": [None, 2]}], {"x": [{"y": ["s", 1, None]}], "z": None},
+                    [[[]]], {"a": {"b": {"c": None}}}]
+
+
+def run_recursive(unit):
+    from mashumaro.codecs.basic import BasicEncoder
+    (_, order, where), tier = unit[:2]
+    res = core.UnitResult()
+    with space.Ctx() as ctx:
+        try:
+            ctx.run(f"type J = {order}")
+            J = ctx.ns["J"]
+            if where == "codec":
+                enc = BasicEncoder(J).encode
+            else:
+                ann = {"field": "J", "optional_field": "Optional[J] = None", "defaulted_none_field": "J = None", "list_field": "List[J] = None"}[where]
+                W = ctx.execute("RW", f"@dataclass\nclass RW(DataClassDictMixin):\n    x: {ann}\n")
+                enc = (lambda v: W([v]).to_dict()["x"][0]) if where == "list_field" else (lambda v: W(v).to_dict()["x"])
+        except Exception as e:   # noqa: BLE001
+            res.cases += 1
+            res.violation(f"build-failed|recalias|{order}|{where}", "build-failed", e1.exc_class(e),
+                          dict(desc=("recalias", order, where), tier=tier, entry=where, label=None), repr(e)[:300])
+            return res
+        for idx, v in enumerate(RECURSIVE_VALUES):
+            if "float" not in order and isinstance(v, float):
+                continue
+            res.cases += 1
+            res.transitions += 1
+            r = e1.outcome(enc, copy.deepcopy(v))
+            if r[0] == "exc":
+                res.violation(f"union-encode-raised|recalias|{order}|{where}", "union-encode-raised", e1.exc_class(r[1]),
+                              dict(desc=("recalias", order, where), tier=tier, entry=where, label=("enc", idx)), f"value={v!r} {r[1]!r:.200}")
+            elif not ref.same(r[1], v):
+                res.violation(f"union-encode-neq|recalias|{order}|{where}", "union-encode-neq", "neq",
+                              dict(desc=("recalias", order, where), tier=tier, entry=where, label=("enc", idx), facts={}),
+                              f"value={v!r} expected the value itself got={r[1]!r:.200}")
+            else:
+                res.outcomes["encode-ok"] += 1
+                res.nontrivial += 1
+    res.states += 1
+    return res
+
+
 def run_case(unit, only=None):
+    if unit[0][0] == "recalias":
+        return run_recursive(unit)
     d, tier = unit[:2]
     as_dict = len(unit) > 2
     res = core.UnitResult()
@@ -208,6 +259,9 @@ run_unit = run_case
 
 def replay(case):
     label = case["label"]
+    if case["desc"][0] == "recalias":
+        vs = run_recursive((tuple(case["desc"]), case["tier"])).violations
+        return [v for v in vs if core.jsonable(v["case"]["label"]) == label]
     res = run_case((core.detuple(case["desc"]), case["tier"]) + (("nt_as_dict",) if case.get("cfg") else ()),
                    only=(case["entry"], core.detuple(label)) if label is not None else None)
     return res.violations
